@@ -98,7 +98,14 @@ func checkC11(c *Check) {
 	hasOCSP := A("-Empty(" + v.cert + ".OCSPServer)")
 	hasCRL := A("-Empty(" + v.cert + ".CRLDistributionPoints)")
 	c.floor("OCSP checker call sites", 1, len(edgeSources(pg, ocCall)))
-	c.floor("CRL checker call sites", 2, len(distinctEdgeNodes(pg, ccCall)))
+	c.floor("CRL checker call sites", 1, len(distinctEdgeNodes(pg, ccCall)))
+	// both contexts of the CRL checker exist, whether they are two call sites or one: it is
+	// reachable within an iteration without the OCSP checker having been asked (certificates that
+	// name distribution points only), and after it (the fallback)
+	_, direct := c.search(pg, edgeTargets(pg, RangeNext(v.L)), inSet(edgeSources(pg, ccCall)), blockedBy(AnyOf(ocCall, RangeNext(v.L), RangeDone(v.L))))
+	c.add("O-C11.1", "CRL checker reachable for certificates without responders", "within an iteration the CRL checker can be reached without the OCSP checker having been called (CRL-only certificates are checked)", direct, "")
+	_, after := c.search(pg, edgeTargets(pg, ocCall), inSet(edgeSources(pg, ccCall)), blockedBy(AnyOf(RangeNext(v.L), RangeDone(v.L))))
+	c.add("O-C11.1", "CRL checker reachable after the OCSP checker", "within an iteration the CRL checker can be reached after the OCSP checker (the fallback exists)", after, "")
 	// O-C11.1
 	c.within(pg, "O-C11.1", "OCSP only with responders", "the OCSP checker is called only for a certificate that names responders", v.L, hasOCSP, ocCall)
 	c.within(pg, "O-C11.1", "CRL only after OCSP or without responders", "the CRL checker is called only after the OCSP checker or for a certificate without responders", v.L, AnyOf(ocCall, noOCSP), ccCall)
